@@ -381,6 +381,10 @@ theorem count_perm {a b : List Arg} (hp : (flatArgs a).Perm (flatArgs b))
   simp only [he, h1, h2, decide_false, Bool.or_false, hp.length_eq, (hp.filter _).length_eq,
     and_self]
 
+/-- the constant of `RangeNode.eval` is not below the value the known finding D1403 was listed with
+    (a smaller `MAX_EMPTY` cuts more ranges short) -/
+theorem max_empty_bound : 100 ≤ Gen.C14.maxEmpty := by decide
+
 /-- **The Array of a range.**  `RangeNode.eval` hands on exactly the cells of the range when the
     range has no empty row and at most `MAX_EMPTY` empty cells. -/
 theorem range_exact_partial (cells : List (List S)) (hrows : ∀ r ∈ cells, r ≠ [])
